@@ -23,6 +23,7 @@ META = {
         "gateway layer's deliberate merge of the second fragment of 000A/22C9 arrays (outside the ramses_tx decode anchors)."
     ),
 }
+META["explanation"] += ' C05.R2 also: memoised functions on the decode path return immutable values only.'
 
 PM = "ramses_tx.parsers"
 BAD_TYPES = {
